@@ -932,10 +932,12 @@ class PathParser(object):
 # Type coercion
 
 def as_scalar(value):
-    """Convert value to a scalar. If a single element Attrs() object is passed
-    the value of the single attribute will be returned."""
+    """Convert value to a scalar. If an Attrs() object (a set of attribute
+    nodes) is passed, the value of its first attribute will be returned, as
+    XPath does when it converts a node set to a string or number."""
     if isinstance(value, Attrs):
-        assert len(value) == 1
+        if not value:
+            return ''
         return value[0][1]
     else:
         return value
@@ -956,7 +958,10 @@ def as_string(value):
     return six.text_type(value)
 
 def as_bool(value):
-    return bool(as_scalar(value))
+    if isinstance(value, Attrs):
+        # a node set is true if and only if it is non-empty
+        return len(value) > 0
+    return bool(value)
 
 
 # Node tests
